@@ -279,9 +279,54 @@ class CountPairs(_Sched):
         finally:
             meas.process_patch_pair = old
 
+    def concrete_body(self, inp):
+        """replay with real catalogs (all patch pairs linked), the real pool and a forced completion order of the pair tasks"""
+        import multiprocessing.pool
+        import shutil
+        import tempfile
+
+        import pandas as pd
+        from yaw import Catalog as RealCatalog, Configuration
+
+        tmp = tempfile.mkdtemp(prefix="c05p_", dir=runner.ROOT + "/scratch")
+        perm = inp["perm"]
+        orig = multiprocessing.pool.Pool.imap_unordered
+
+        def forced(self, func, iterable, chunksize=1):
+            res = self.map(func, list(iterable))
+            for i in (perm if len(perm) == len(res) else range(len(res))):
+                yield res[i]
+
+        saved_np = par._num_processes
+        try:
+            N, n = self.N, 12 * self.N
+            k = np.arange(n)
+            mkdf = lambda off: pd.DataFrame({"ra": 1.0 + 0.01 * ((k * 7 + off) % n), "dec": 1.0 + 0.013 * ((k * 5 + off) % n), "z": 0.3 + 0.001 * k,
+                                              "w": 0.1 * (1.0 + (k + off) % 9), "p": k % N})
+            kw = dict(ra_name="ra", dec_name="dec", redshift_name="z", weight_name="w", patch_name="p", max_workers=1)
+            d = RealCatalog.from_dataframe(tmp + "/d", mkdf(0), **kw)
+            r = RealCatalog.from_dataframe(tmp + "/r", mkdf(3), **kw)
+            cfg = Configuration.create(rmin=0.001, rmax=5.0, unit="deg", edges=[0.25, 0.5])
+            run = (lambda w: meas.autocorrelate(cfg, d, r, count_rr=False, max_workers=w)[0].dd) if self.auto else (
+                lambda w: meas.crosscorrelate(cfg, d, r, unk_rand=r, max_workers=w)[0].dd)
+            par._num_processes = lambda: 1
+            ref = run(1)
+            par._num_processes = lambda: max(2, int(inp["workers"]))
+            multiprocessing.pool.Pool.imap_unordered = forced
+            got = run(max(2, int(inp["workers"])))
+            same = lambda a, b: bool(np.array_equal(a, b))
+            return [Check("counts_bit_identical", cond=same(got.counts.counts, ref.counts.counts)),
+                    Check("sum_weights1_bit_identical", cond=same(got.sum_weights.sum_weights1, ref.sum_weights.sum_weights1)),
+                    Check("sum_weights2_bit_identical", cond=same(got.sum_weights.sum_weights2, ref.sum_weights.sum_weights2)),
+                    Check("sampled_bit_identical", cond=same(got.sample_patch_sum().samples, ref.sample_patch_sum().samples))]
+        finally:
+            multiprocessing.pool.Pool.imap_unordered = orig
+            par._num_processes = saved_np
+            shutil.rmtree(tmp, ignore_errors=True)
+
     def body(self, inp):
         if Engine.cur is None:
-            return [Check("counts_bit_identical", cond=True)]
+            return self.concrete_body(inp)
         self.setup_parallel(inp)
         try:
             got = self.run(inp)
